@@ -90,17 +90,21 @@ Proof. eexists. split; vm_compute; reflexivity. Qed.
 (** ** tie to the source by translation: the judgement and substitution functions the invariant rests on
        are regenerated from the CURRENT rust/src/lib.rs on every run (Gen/Judge.v, Gen/SubstFns.v) and
        proved equal to the model; in particular the capture checks are present in the source *)
-From Pi2 Require Import Gen.Judge Gen.SubstFns ML.GenAgree.
+From Pi2 Require Import Gen.Judge Gen.SubstFns Gen.InstFn ML.GenAgree.
 Theorem C01_source_functions_validated :
   (forall p x, gen_e_fresh p x = e_fresh p x) /\ (forall p X, gen_s_fresh p X = s_fresh p X) /\
   (forall p X, gen_positive p X = pat_positive p X) /\ (forall p X, gen_negative p X = pat_negative p X) /\
   (forall p, gen_well_formed p = well_formed p) /\
   (forall p x plug, gen_apply_esubst p x plug = apply_esubst guards_sound p x plug) /\
-  (forall p X plug, gen_apply_ssubst p X plug = apply_ssubst guards_sound p X plug).
+  (forall p X plug, gen_apply_ssubst p X plug = apply_ssubst guards_sound p X plug) /\
+  (forall p vars plugs, gen_instantiate_in_place p vars plugs = inst guards_sound p vars plugs).
 Proof.
   exact (conj gen_e_fresh_eq (conj gen_s_fresh_eq (conj gen_positive_eq (conj gen_negative_eq
-          (conj gen_well_formed_eq (conj gen_apply_esubst_eq gen_apply_ssubst_eq)))))).
+          (conj gen_well_formed_eq (conj gen_apply_esubst_eq (conj gen_apply_ssubst_eq gen_instantiate_in_place_eq))))))).
 Qed.
+(** the Instantiate rule stated on the source's own function *)
+Corollary C01_source_instantiate_rule : forall p vars plugs q, mvalid p -> gen_instantiate_in_place p vars plugs = Some q -> mvalid q.
+Proof. intros p vars plugs q H. rewrite gen_instantiate_in_place_eq. exact (C01_instances p vars plugs q H). Qed.
 Print Assumptions C01_source_functions_validated.
 (** the Substitution rule stated on the source's own function *)
 Corollary C01_source_substitution_rule : forall p X plug q, mvalid p -> gen_apply_ssubst p X plug = Some q -> mvalid q.
